@@ -134,6 +134,10 @@ func makeBlock(kind string, key []byte) kcp.BlockCrypt {
 		b, err = kcp.NewSalsa20BlockCrypt(key[:32])
 	case "gcm":
 		b, err = kcp.NewAESGCMCrypt(key[:16])
+	case "blowfish": // pure Go, 8-byte blocks: accesses to the shared CFB buffers are visible to the race detector
+		b, err = kcp.NewBlowfishBlockCrypt(key[:32])
+	case "twofish": // pure Go, 16-byte blocks
+		b, err = kcp.NewTwofishBlockCrypt(key[:32])
 	default:
 		return nil
 	}
@@ -145,15 +149,18 @@ func makeBlock(kind string, key []byte) kcp.BlockCrypt {
 
 func childMain(seed uint64, tier, out string) {
 	g := hx.NewRng(seed)
-	per := 1100 * time.Millisecond
+	per := 1000 * time.Millisecond
 	nsess := 3
 	if tier == "thorough" {
-		per = 9 * time.Second
+		per = 7 * time.Second
 		nsess = 4
 	}
 	var cfgs []config
 	i := 0
-	for _, c := range []string{"nil", "aes", "salsa20", "gcm"} {
+	// AES-CFB touches the shared enc/dec buffers only inside assembly (AES-NI block function, XORBytes),
+	// which the race detector does not instrument; blowfish and twofish are pure Go and make races on
+	// blockCrypt.encbuf / decbuf observable.
+	for _, c := range []string{"nil", "aes", "salsa20", "gcm", "blowfish", "twofish"} {
 		for _, f := range []bool{false, true} {
 			// alternate the transport; thorough runs both transports for every configuration
 			for _, mem := range []bool{false, true} {
